@@ -83,6 +83,17 @@ ShareRel(pi, pj, hp) ==
         /\ LET sp == Spine(pi, hp) IN
            \/ \E q \in 1..Len(sp.s) : SameObj(sp.s[q], pj)
            \/ SameObj(sp.tl, pj)          \* the last cdr of an improper list
+\* pj is the very object stored as an element of pi (an element of the list pi, or of the vector pi)
+ElemRel(pi, pj, hp) ==
+  /\ CASE pj.t = "pair" -> TRUE
+        [] pj.t = "vec" -> Len(hp[pj.v].e) > 0
+        [] pj.t = "str" -> Len(hp[pj.v].c) > 0
+        [] OTHER -> FALSE
+  /\ \/ /\ pi.t = "pair"
+        /\ LET sp == Spine(pi, hp) IN \E q \in 1..Len(sp.s) : SameObj(hp[sp.s[q].v].a, pj)
+     \/ /\ pi.t = "vec"
+        /\ \E q \in 1..Len(hp[pi.v].e) : SameObj(hp[pi.v].e[q], pj)
+ElemMatrix(pl, n, hp) == [i \in 1..n |-> [j \in 1..n |-> ElemRel(pl[i], pl[j], hp)]]
 ShareMatrix(pl, n, hp) == [i \in 1..n |-> [j \in 1..n |-> ShareRel(pl[i], pl[j], hp)]]
 
 -----------------------------------------------------------------------------
